@@ -20,6 +20,13 @@ RECOVERY_TRUST = [KAFKA_CLIENT + "; cursor contract: after Assign(p@x) the clien
 RECEIVER_TRUST = ["encoding/json + base64 wire codec: outside the model (a decodable record is its fields); the harness decodes every produced record "
                   "with a mirror struct and compares the fields", KAFKA_CLIENT, "records are written by the REAL KafkaMessageSender over a scripted producer"]
 
+EXEC_TRUST = ["Go runtime semantics assumed by the executor models: buffered channels are FIFO, a receive on a closed channel yields !ok only after the buffer is drained, "
+              "a send on a closed channel panics, select with default never blocks, sync.WaitGroup, sync.Once, goroutine creation; prometheus counters are atomic",
+              "harness-owned source and nodes (harness/execnodes.go) observe the real executor; their outcome oracle (FNV-1a of seed, node index, payload) is re-implemented in "
+              "Lean (Model/Flow.lean harnessOracle) and compared on every event",
+              "extractor (go/ast): the regenerated skeleton of Execute, runNode, startWorkers, setupNodes, ProcessEvent, handleResult, deliverToChild, handleFailure, "
+              "invokeProcessorAsync, InitNodeContextHierarchy must equal the expected skeleton the models were transcribed from (kernel rfl)"]
+
 PROPS = {
     "C10": dict(
         components=[("receiver", 2000, 100000)],
@@ -110,6 +117,60 @@ PROPS = {
                      "theorems sender_is_last / snapshot_replication are stated for histories of local operations "
                      "(add/update/complete/cancel/get); histories that interleave received snapshots are covered by the "
                      "correspondence check and the Spec oracle only"],
+    ),
+    "C01": dict(
+        components=[("flow-C01", 250, 6000)],
+        parallel=8,
+        shrink=False,
+        trusted=EXEC_TRUST,
+        assumptions=["async nodes answer every event before their Shutdown returns (H-async: what the framework documents)",
+                     "the harness observes schedules the Go scheduler happens to produce (GOMAXPROCS 1/2/4/16, random latencies, async completions inline, from other goroutines, or "
+                     "flushed inside Shutdown); the quantifier over ALL schedules is carried by the Lean component model, tied to the source by the skeleton equalities"],
+    ),
+    "C02": dict(
+        components=[("flow-C02", 250, 6000)],
+        parallel=8,
+        shrink=False,
+        trusted=EXEC_TRUST,
+        assumptions=["async nodes answer every event before their Shutdown returns (H-async: what the framework documents)",
+                     "the harness observes schedules the Go scheduler happens to produce (GOMAXPROCS 1/2/4/16, random latencies, async completions inline, from other goroutines, or "
+                     "flushed inside Shutdown); the quantifier over ALL schedules is carried by the Lean component model, tied to the source by the skeleton equalities"],
+    ),
+    "C03": dict(
+        components=[("flow-C03", 250, 6000)],
+        parallel=8,
+        shrink=False,
+        trusted=EXEC_TRUST,
+        assumptions=["async nodes answer every event before their Shutdown returns (H-async: what the framework documents)",
+                     "the harness observes schedules the Go scheduler happens to produce (GOMAXPROCS 1/2/4/16, random latencies, async completions inline, from other goroutines, or "
+                     "flushed inside Shutdown); the quantifier over ALL schedules is carried by the Lean component model, tied to the source by the skeleton equalities"],
+    ),
+    "C04": dict(
+        components=[("flow-C04", 250, 6000)],
+        parallel=8,
+        shrink=False,
+        trusted=EXEC_TRUST,
+        assumptions=["async nodes answer every event before their Shutdown returns (H-async: what the framework documents)",
+                     "the harness observes schedules the Go scheduler happens to produce (GOMAXPROCS 1/2/4/16, random latencies, async completions inline, from other goroutines, or "
+                     "flushed inside Shutdown); the quantifier over ALL schedules is carried by the Lean component model, tied to the source by the skeleton equalities"],
+    ),
+    "C05": dict(
+        components=[("flow-C05", 250, 6000)],
+        parallel=8,
+        shrink=False,
+        trusted=EXEC_TRUST,
+        assumptions=["async nodes answer every event before their Shutdown returns (H-async: what the framework documents)",
+                     "the harness observes schedules the Go scheduler happens to produce (GOMAXPROCS 1/2/4/16, random latencies, async completions inline, from other goroutines, or "
+                     "flushed inside Shutdown); the quantifier over ALL schedules is carried by the Lean component model, tied to the source by the skeleton equalities"],
+    ),
+    "C16": dict(
+        components=[("flow-C16", 250, 6000)],
+        parallel=8,
+        shrink=False,
+        trusted=EXEC_TRUST,
+        assumptions=["async nodes answer every event before their Shutdown returns (H-async: what the framework documents)",
+                     "the harness observes schedules the Go scheduler happens to produce (GOMAXPROCS 1/2/4/16, random latencies, async completions inline, from other goroutines, or "
+                     "flushed inside Shutdown); the quantifier over ALL schedules is carried by the Lean component model, tied to the source by the skeleton equalities"],
     ),
     "C06": dict(
         components=[("offsets", 3000, 300000)],
